@@ -206,6 +206,23 @@ Definition call (t : transport) (m : msg) (r : reply) : call_result :=
       end
   end.
 
+(** FStandardClient.Oneway: the same preparation and transport checks; no reply is awaited.
+    NATS: the frame is published and the call returns (the server still answers; nobody waits);
+    HTTP: Oneway is Request with the result dropped, so a 413 still surfaces. *)
+Definition oneway (t : transport) (m : msg) (r : reply) : call_result :=
+  match prepare (request_limit t) m with
+  | None => mkres ReqTooLarge None None
+  | Some framed =>
+    if framed =? 4 then mkres OkReply None None
+    else if negb (transport_check t framed) then mkres ReqTooLarge None None
+    else
+      match t with
+      | TNats => mkres OkReply (Some framed)
+                       (match server_bounded nats_max r with Some (_, n) => Some n | None => None end)
+      | THttp _ _ => call t m r
+      end
+  end.
+
 (** * Publishers (FStandardClient.Publish) *)
 Inductive publisher :=
 | PNats                          (* fNatsPublisherTransport *)
